@@ -16,6 +16,22 @@ def gen_cases(tier):
         rng = family.rng_for(sd, PROP, i)
         inv = ["i", "s", "j"][: rng.randint(1, 3)]
         outv = ["o", "p"][: rng.randint(1, 2)]
+        if i % 10 == 9:
+            # coefficients that cancel when one variable is renamed onto another: the renamed row has no
+            # variable left and means TRUE (bound >= 0) or FALSE (bound < 0)
+            c_ = rng.choice([-1, -2, 1, 0])
+            if rng.random() < 0.5:
+                d = {"inv": ["i", "s", "j"], "outv": ["o"], "a": [({"i": 1, "s": -1}, c_), ({"j": 1}, 3)], "g": [({"o": 1, "j": -1}, 2)] if rng.random() < 0.5 else []}
+                pairs = [("i", "s"), ("s", "i"), ("i", "fresh"), ("j", "i")]
+            else:
+                d = {"inv": ["i"], "outv": ["o", "p"], "a": [({"i": 1}, 4)], "g": [({"o": 1, "p": -1}, c_)]}
+                pairs = [("o", "p"), ("p", "o"), ("o", "fresh")]
+            try:
+                gen.mk_contract(d)
+                cases.append({"id": i + 1, "raw": d, "pairs": pairs, "lists": [[pairs[0], ("fresh", "n1")]]})
+                continue
+            except ValueError:
+                pass
         for _ in range(20):
             d = gen.contract_raw(rng, inv, outv, na=(0, 2), ng=(1, 3), band=0.3, dyadic=0.15 if i % 5 == 0 else 0.0)
             try:
